@@ -68,6 +68,48 @@ def snapshot_equal(a, b):
     return json.dumps(a, sort_keys=True) == json.dumps(b, sort_keys=True)
 
 
+def rt_values(sec):
+    """what C05 compares: names, titles, sizes, values (floats to printed precision), annotations"""
+    if sec is None:
+        return None
+    out = []
+    for o in sec["o"]:
+        if o["ty"] == "sec":
+            vs = [rt_values(x) for x in o["v"]]
+        elif o["ty"] == "float":
+            vs = ["%.6f" % float.fromhex(x) for x in o["v"]]
+        else:
+            vs = o["v"]
+        out.append((o["n"], o["ty"], vs, o["c"]))
+    return (sec["t"], out)
+
+
+def rt_check(verdict, b, g, desc, rep, sigprefix):
+    pr = [l for l in g["lines"] if l["cmd"] == "print"]
+    rp = [l for l in g["lines"] if l["cmd"] == "reparse"]
+    if len(pr) != 3 or len(rp) != 2:
+        raise ModelError("round trip: unexpected observation count")
+    t1, t2, t3 = pr[0]["text"], pr[1]["text"], pr[2]["text"]
+    probs = []
+    want = "".join(x + "\n" for x in b.get("printed", []))
+    if b.get("printed") and t1 != want:
+        probs.append(("text", "printed text differs from the specification: %r vs %r" % (t1[:200], want[:200])))
+    if rp[0]["ret"] != 0:
+        probs.append(("reparse", "the printed text is rejected by the parser (%s): %r" % ([d["msg"] for d in rp[0]["diag"]][:2], t1[:300])))
+    else:
+        c1, c2 = rp[0]["ctx"].get("c1"), rp[0]["ctx"].get("c2")
+        if rt_values(c1) != rt_values(c2):
+            probs.append(("values", "re-parsed configuration differs from the printed one: text %r" % t1[:300]))
+        if rp[1]["ret"] != 0 or t2 != t3:
+            probs.append(("fixpoint", "second print/parse cycle changes the text: %r -> %r" % (t2[:200], t3[:200])))
+        has_annot = b.get("pre") or any(e["call"]["op"] == "setcomment" for e in b["calls"])
+        if not has_annot and t1 != t2:
+            probs.append(("reprint", "re-parsed configuration prints differently: %r -> %r" % (t1[:200], t2[:200])))
+    if probs:
+        verdict.violation("%s:rt-%s:%s" % (sigprefix, "+".join(sorted(set(k for k, _ in probs))), desc),
+                          "%s :: %s" % (desc, "; ".join(p for _, p in probs[:3])), dict(rep, texts=[t1, t2, t3]))
+
+
 def replay(verdict, exe, res, aspects, seed=0, tag="api", pol=None, sigprefix="api"):
     pol = pol or {"mod": "nonsec", "reset": False, "cmt": False}
     schema = res.schemas[1]
@@ -89,6 +131,9 @@ def replay(verdict, exe, res, aspects, seed=0, tag="api", pol=None, sigprefix="a
         lines.append("dump 1")
         lines.append("obs c1")
         lines.append(call_cmd(b["calls"][-1]["call"], schema))
+        if "roundtrip" in aspects and b["calls"][-1]["exp"]["ret"] != "unspec":
+            lines += ["print c1", "init c2 S %d" % FLAGBITS["COMMENTS"], "reparse c1 c2", "print c2",
+                      "init c3 S %d" % FLAGBITS["COMMENTS"], "reparse c2 c3", "print c3", "free c2", "free c3"]
         lines.append("free c1")
         bid = "a%d" % n
         scripts.append((bid, "\n".join(lines)))
@@ -110,7 +155,9 @@ def replay(verdict, exe, res, aspects, seed=0, tag="api", pol=None, sigprefix="a
                               "%s during %s :: %s" % (g["crash"]["kind"], desc, g["crash"]["detail"][:1500]),
                               dict(rep, crash=g["crash"]))
             continue
-        lines = [l for l in g["lines"] if l["cmd"] not in ("init", "parsebuf", "free", "obs")]
+        if "roundtrip" in aspects and b["calls"][-1]["exp"]["ret"] != "unspec":
+            rt_check(verdict, b, g, desc, rep, sigprefix)
+        lines = [l for l in g["lines"] if l["cmd"] not in ("init", "parsebuf", "free", "obs", "print", "reparse")]
         if len(lines) != len(b["calls"]):
             raise ModelError("behaviour %s: %d observations for %d calls" % (bid, len(lines), len(b["calls"])))
         before = [l for l in g["lines"] if l["cmd"] == "obs"][-1]["ctx"].get("c1")
